@@ -91,10 +91,11 @@ def handle : String → Handler
       showInts (genotypeAsAlleles g labels),
       showRats (aa.map (·.1)),
       showRats (aa.map (·.2)),
-      (match genotypePosteriorAsArray post labels p with
+      (match sampleGP post haps (rc = 1) p with
         | some arr => showRats arr
         | none => "error")])
-  /- hc.labels <nBase> <nLabels> { nBase alleles, label } <genotype/post as above>: arbitrary label dict -/
+  /- hc.labels <nBase> <nLabels> { nBase alleles, label } <post block> <genotype> <n_alleles | none>:
+     arbitrary label dict and allele count -/
   | "hc.labels", nbS :: nlS :: toks => do
     let nb ← parseNat? nbS; let nl ← parseNat? nlS
     let (ls, rest) ← takeN (nl * (nb + 1)) toks
@@ -103,12 +104,15 @@ def handle : String → Handler
     let labels := if nl = 0 then [] else labels
     let (post, p, rest) ← parsePost nb rest
     let (gv, rest) ← takeN (p * nb) rest
-    if rest ≠ [] then none else
+    let nAll : Option Nat ← match rest with
+      | ["none"] => some none
+      | [x] => (parseNat? x).map some
+      | _ => none
     let gv ← parseNats? gv
     let g : List Hap := if nb = 0 then List.replicate p [] else chunks nb gv
     some (";".intercalate [
       showInts (genotypeAsAlleles g labels),
-      (match genotypePosteriorAsArray post labels p with
+      (match genotypePosteriorAsArray post labels p nAll with
         | some arr => showRats arr
         | none => "error")])
   | _, _ => none
